@@ -151,6 +151,19 @@ func main() {
 				return fdOf(f)
 			})
 		}
+		// a descriptor on the first version of the shared name s1 (d0): AtomicCreate of that name by
+		// anybody replaces the file, it must not change what this descriptor reads
+		oldS1 := []byte("first-version-of-s1")
+		rec(0, fmt.Sprintf("K 0 1 %s", enc.RLE(oldS1)), func() string { fs.AtomicCreate("d0", "s1", oldS1); return "U" })
+		var oldFd filesys.File
+		oldNum := -1
+		rec(0, "O 0 1", func() string {
+			f := fs.Open("d0", "s1")
+			oldFd = f
+			oldNum = nfd
+			nfd++
+			return fdOf(f)
+		})
 		// ---- concurrent phase
 		plans := make([][]planned, nthreads)
 		for t := 0; t < nthreads; t++ {
@@ -164,6 +177,8 @@ func main() {
 					p = planned{kind: "C", d: d, n: 1 + tr.Intn(2)}
 				case k < 5 && t == 0 && appendNum >= 0: // append through the owner's descriptor
 					p = planned{kind: "A", fd: appendNum, real: appendFd, data: []byte(fmt.Sprintf("<%d.%d>", t, i))}
+				case k < 7 && t == nthreads-1 && oldNum >= 0 && tr.Bool(): // read the first version of s1 through the old descriptor
+					p = planned{kind: "R", fd: oldNum, real: oldFd, off: uint64(tr.Intn(8)), ln: uint64(1 + tr.Intn(40))}
 				case k < 7: // read through own descriptor
 					p = planned{kind: "R", fd: readNums[t], real: readFds[t], off: uint64(tr.Intn(8)), ln: uint64(1 + tr.Intn(40))}
 				case k < 9: // AtomicCreate of a shared name
